@@ -163,6 +163,12 @@ func fixedCountHistories() []*countHistory {
 		{Cfg: mi, Shape: "reject-negative", Steps: []countStep{{Kind: "accept", Limit: 8}, {Kind: "reject", Limit: -1}}},
 		{Cfg: mi, Shape: "outage-and-recovery", Steps: []countStep{{Kind: "accept", Limit: 8}, {Kind: "error"}, {Kind: "notready"}, {Kind: "ready"}, {Kind: "accept", Limit: 12}, {Kind: "accept", Limit: 27}}},
 		flap,
+		// limits in the upper int32 range / rates float32 cannot represent: overflow of the reserve / batch arithmetic must
+		// neither crash nor lift the not-ready limit; what the capped probe cannot tell apart is not judged
+		{Cfg: schemaCfg{Strategy: string(proxyv1alpha1.GlobalCountLimit), Type: "maxinflight", L: 4, G: math.MaxInt32}, Shape: "huge-global-maxint32", Steps: []countStep{{Kind: "accept", Limit: 8}, {Kind: "reject", Limit: math.MaxInt32}, {Kind: "notready"}, {Kind: "error"}, {Kind: "ready"}, {Kind: "accept", Limit: math.MaxInt32}, {Kind: "notready"}}},
+		{Cfg: schemaCfg{Strategy: string(proxyv1alpha1.GlobalCountLimit), Type: "maxinflight", L: 4, G: 1<<30 + 7}, Shape: "huge-global-2^30", Steps: []countStep{{Kind: "accept", Limit: -1}, {Kind: "error"}, {Kind: "notready"}, {Kind: "ready"}, {Kind: "accept", Limit: 300}, {Kind: "reconfig", NL: 3, NG: math.MaxInt32}, {Kind: "notready"}}},
+		{Cfg: schemaCfg{Strategy: string(proxyv1alpha1.GlobalCountLimit), Type: "tokenbucket", L: 50, LB: 50, G: 1<<24 + 1, GB: 1<<24 + 1}, Shape: "huge-qps-2^24+1", Steps: []countStep{{Kind: "accept", Limit: 10000}, {Kind: "notready"}, {Kind: "ready"}, {Kind: "error"}, {Kind: "accept", Limit: math.MaxInt32}, {Kind: "notready"}}},
+		{Cfg: schemaCfg{Strategy: string(proxyv1alpha1.GlobalCountLimit), Type: "tokenbucket", L: 50, LB: 50, G: math.MaxInt32, GB: math.MaxInt32}, Shape: "huge-qps-maxint32", Steps: []countStep{{Kind: "accept", Limit: 10000}, {Kind: "error"}, {Kind: "notready"}, {Kind: "ready"}, {Kind: "accept", Limit: 5}, {Kind: "notready"}}},
 		{Cfg: mi, Shape: "global-lowered-during-outage", Steps: []countStep{{Kind: "accept", Limit: 8}, {Kind: "error"}, {Kind: "reconfig", NL: 5, NG: 10}, {Kind: "accept", Limit: 18}, {Kind: "reject", Limit: 19}}},
 		{Cfg: mi, Shape: "global-lowered-while-healthy", Steps: []countStep{{Kind: "accept", Limit: 8}, {Kind: "reconfig", NL: 5, NG: 10}, {Kind: "accept", Limit: 18}, {Kind: "error"}, {Kind: "accept", Limit: 9}}},
 		{Cfg: mi, Shape: "global-raised-during-outage", Steps: []countStep{{Kind: "accept", Limit: 8}, {Kind: "error"}, {Kind: "reconfig", NL: 7, NG: 40}, {Kind: "accept", Limit: 30}, {Kind: "notready"}}},
@@ -352,7 +358,8 @@ func runCountHistory(r *vkit.R, h *countHistory) {
 		}
 		if !isTB {
 			var E int
-			if p := vkit.Safely(func() { E = probeInflight(gw, int(cfg.G)+5) }); p != nil {
+			capMI := probeCap(cfg.G, 5)
+			if p := vkit.Safely(func() { E = probeInflight(gw, capMI) }); p != nil {
 				r.Violation("C09/count-maxinflight/panic/admission", fmt.Sprintf("TryAcquire/Release panicked: %v", p), trimmedC(h, si))
 				return
 			}
@@ -398,7 +405,7 @@ func runCountHistory(r *vkit.R, h *countHistory) {
 			case mode == "accept" && st.Kind == "accept":
 				// recovery / normal operation: an accepted limit q in [5% of global + 1, global] must be in effect exactly
 				// (below that the wrapper's documented burst reserve may lift it)
-				if st.Limit >= 1+cfg.G/20 && st.Limit <= cfg.G {
+				if st.Limit >= 1+cfg.G/20 && st.Limit <= cfg.G && int(st.Limit) < capMI {
 					r.Count("count_det_recovery_checks", 1)
 					if E != int(st.Limit) {
 						pos := "steady"
@@ -429,7 +436,7 @@ func runCountHistory(r *vkit.R, h *countHistory) {
 				tbMode = "after-reconfigure/" + tbMode
 			}
 		}
-		cap := int(cfg.GB) + 10
+		cap := probeCap(cfg.GB, 10)
 		var n int
 		var t0, t1 int64
 		if p := vkit.Safely(func() {
